@@ -17,6 +17,42 @@ add("C01", "symbolic execution of CVSS3.__init__/scores() from source over finit
 add("C03", "symbolic execution of CVSS2.__init__/scores() from source over finite-domain metric variables; SAT sweeping; z3 decides impl==spec per score value (incl. None)",
     "All v2 metric assignments (6.9e8) covered symbolically, including the None/number distinction of temporal and environmental scores; solver-decided equivalence with the exact specification, counterexamples replayed.",
     COMMON_NOTE, "DESIGN.md section 6 C03")
+add("C02", "symbolic execution of CVSS4.__init__ (m, macroVector, compute_base_score with real float/EPSILON/half-up at the leaves) in 270 macrovector forks; z3 decides impl==exact-rational spec per score value in every fork",
+    "All assignments of all 32 v4.0 metrics covered symbolically; the case split over macrovectors is itself solver-checked for feasibility and exhaustiveness; in each fork z3 proves the reported float equals the exact interpolation result. The 270 lookup scores of the oracle are a pinned copy (stated limit).",
+    COMMON_NOTE, "DESIGN.md section 6 C02")
+add("C04", "inductive lemmas on the real parse_vector code: one field slot (legal literals + near-miss alphabet, exact CPython string semantics) from an arbitrary metric map, code around the loop on head x abstract chunks, check_mandatory from an arbitrary map; z3 decides each step against the grammar step",
+    "One-step lemmas from an arbitrary loop state, each decided by the solver over all states and all slot values; composed by a written induction to any number of fields. Bounded by the finite field alphabet (listed in evidence).",
+    COMMON_NOTE, "DESIGN.md section 6 C04")
+add("C05", "two related symbolic runs (ABSENT<->explicit ND/X on any subset) with all outputs compared by z3; commutation lemma for two field slots on the real loop body from an arbitrary state; accessors executed with the raw string opaque",
+    "Not-Defined spelling: every output of the two runs is solver-proved equal over all assignments and all subsets; field order: solver-proved commutation of the real loop body for any two fields from any state, composed over transpositions by a written induction.",
+    COMMON_NOTE, "DESIGN.md section 6 C05")
+add("C06", "two related symbolic runs per substitution (selector variable per metric, any subset) with z3 deciding score equality; syntactic support of swept score guards for clause (e); v4 via invariance of the real effective-value function m()",
+    "v2/v3: both constructors run for real in one solver session and z3 proves the defined scores equal for every assignment and every subset of substituted metrics. v4: invariance of the effective values proved on the real m(); the score's dependence on them only is C02's result (stated dependency).",
+    COMMON_NOTE, "DESIGN.md section 6 C06")
+add("C07", "symbolic clean_vector() analysed as a structured string; real constructor re-run on it; two independent symbolic objects per class with z3 deciding a==b <=> same (version, defined metrics), hash/clean implications, foreign values",
+    "Canonical-form, re-parse, equality and hash statements are each a solver verdict over all assignments (pairs: all pairs of assignments). Transitivity follows from == being proved equivalent to key equality.",
+    COMMON_NOTE, "DESIGN.md section 6 C07")
+add("C08", "emitted structured strings re-parsed by the real constructor and run through an NFA of the official vectorString pattern carried symbolically; z3 decides acceptance on every path",
+    "Every cleaned / RH vector the library can emit (all assignments) is solver-proved accepted by its own parser and by the official pattern; interactive builder output via C16's model.",
+    COMMON_NOTE, "DESIGN.md section 6 C08")
+add("C09", "symbolic scores/severities/as_json; every reachable (score, rating) alternative checked against the official scale, offending alternatives must be proved unreachable by z3; band-edge reachability witnesses",
+    "All reachable score alternatives of v2/v3 (real scoring) and all 101 scores for v4 (abstracted) are examined; a malformed score or wrong rating is a guard that z3 must prove unsatisfiable.",
+    COMMON_NOTE, "DESIGN.md section 6 C09")
+add("C10", "as_json() executed symbolically for the four option combinations; JSON-Schema keywords evaluated over the symbolic dictionary (regex by NFA over the structured vectorString); z3 decides every part; known findings keyed per failing part",
+    "Every part of the official schema is a solver verdict over all assignments (plus inputs with one adjacent transposition, because vectorString echoes the input). Two genuine v4 findings are recorded as known; three were repaired by fix: commits.",
+    COMMON_NOTE, "DESIGN.md section 6 C10")
+add("C11", "as_json() executed symbolically and compared field by field (z3) with the input string, scores(), severities() and an independent name table; sort/minimal relations between the four dictionaries",
+    "Faithfulness of every field, the subset/ordering relations of sort and minimal, and the group-inclusion rule are solver verdicts over all assignments (v2 with real scoring because its group inclusion depends on scores).",
+    COMMON_NOTE, "DESIGN.md section 6 C11")
+add("C12", "rh_vector() analysed as a structured string; real from_rh_vector executed on it and on <score text>/<valid vector> with the score text ranging over 101 canonical + 41 odd texts (float() run for real at the leaves); z3 decides outcome class against the oracle",
+    "Round trip and the acceptance/error taxonomy are solver verdicts over all vectors x all score texts of the finite alphabet.",
+    COMMON_NOTE, "DESIGN.md section 6 C12")
+add("C15", "temporal_vector()/environmental_vector() as structured strings compared with the oracle per position (z3); re-assembled vector re-parsed and re-scored by the real constructor, scores compared by z3",
+    "All v2/v3 assignments; the score-preservation claim re-executes the real scoring on the emitted sub-vectors.",
+    COMMON_NOTE, "DESIGN.md section 6 C15")
+add("C18", "every accessor executed twice symbolically from an arbitrary constructed state; effect log of all stores with their path conditions (must be unreachable or target fresh objects); alias check on the interpreter heap; z3 decides feasibility",
+    "One inductive step from an arbitrary constructed state (no exception, no store into pre-existing state on any path, fresh results); sequences of any length follow by induction (written).",
+    COMMON_NOTE, "DESIGN.md section 6 C18")
 
 NA = {
  "C20": "quantifies over nine CPython binaries (2.7 ... 3.13); solver-based checking would need an encoding of those interpreters' semantics, which is not within reach; running a probe under each interpreter is concrete differential testing, a different technique (DESIGN.md section 8)",
